@@ -196,7 +196,9 @@ var c08Trivia = []string{"", " ", "\n", "  \n\t", " /* c */ ", " // lc\n ", "\t"
 	// comments whose text starts or ends with the characters of the comment markers
 	" /*/ x */ ", "/*/*/", " /*//////\n * banner\n //////*/ ", "/***/", " //*/ lc\n", " /*/ \"q\" + */ ", "/* // */",
 	// the replacement character, written out, is a character like any other
-	" /* \ufffd */ ", " // \ufffd\n"}
+	" /* \ufffd */ ", " // \ufffd\n",
+	// a carriage return on its own does not end a line comment (a line ends with LF or CRLF)
+	" // first\r + \"not part of it\" second\n", " // a\rb\r\n "}
 
 func c08Gen(r *core.Rng) *c08Case {
 	c := &c08Case{}
